@@ -64,6 +64,7 @@ Units(sym) ==
   CASE sym = "m" -> <<109>> [] sym = "x" -> <<120>> [] sym = "nl" -> <<10>> [] sym = "e" -> <<233>>
     [] sym = "hi" -> <<55357>> [] sym = "lo" -> <<56832>> [] sym = "ast" -> <<55357, 56832>>
     [] sym = "rep" -> <<65533>>
+    [] sym = "feff" -> <<65279>>      \* U+FEFF as a character of the text (only generated right after a mark: "the mark" is one)
 
 UnitBytes(u, e) == IF e = "le" THEN <<u % 256, u \div 256>> ELSE <<u \div 256, u % 256>>
 
@@ -307,6 +308,12 @@ CfgPass == [CfgPlain EXCEPT !.pass = TRUE]
 \* the known deviation (dependency encoding_rs_io): a UTF-8 mark is removed but does NOT override an explicit label: the
 \* rest is decoded as the label says.  Emitted so that the harness can tell this behaviour from any other wrong one.
 \* (not for shift_jis: the decode table taken from encoding_rs covers the generated tokens only)
+\* a second known deviation (dependency encoding_rs_io): after a UTF-16 mark a text that itself begins with U+FEFF loses
+\* that character too (the mark is stripped by the reader, the decoder then removes "its" mark once more)
+FeffDec == IF scn.text # <<>> /\ scn.text[1] = "feff" /\ scn.bom # "none" /\ scn.label # "none"
+           THEN LET bs == inp.bytes IN
+                DecodeAs(Drop(bs, Stripped(BomOf(bs), scn.label) + Len(TokBytes("feff", scn.enc))), Effective(BomOf(bs), scn.label))
+           ELSE <<>>
 AltDec == IF scn.bom = "u8" /\ scn.label \in {"utf-16le", "utf-16be", "latin1"}
           THEN DecodeAs(Drop(inp.bytes, 3), EncOfLabel(scn.label)) ELSE <<>>
 Emitted == Done =>
@@ -317,5 +324,7 @@ Emitted == Done =>
                               mal |-> ne + (IF eff = "sj" /\ scn.odd THEN 1 ELSE 0) + (IF eff = "u8" THEN BadBytes(inp.bytes) ELSE 0), flush |-> fl, cuts |-> cuts, ck |-> ck,
                               ref |-> Expected(dec, CfgPlain), refp |-> Expected(dec, CfgPass),
                               altdec |-> AltDec, altref |-> Expected(AltDec, CfgPlain), altrefp |-> Expected(AltDec, CfgPass),
+                              feff |-> (scn.text # <<>> /\ scn.text[1] = "feff"),
+                              feffdec |-> FeffDec, feffref |-> Expected(FeffDec, CfgPlain), feffrefp |-> Expected(FeffDec, CfgPass),
                               ok |-> (out = dec)])>>)
 =============================================================================
